@@ -134,6 +134,49 @@ theorem C10_fail_absorbing_empty_chunk (c : RtCtx) (σ : CState) (chunk : List N
     c.feed σ chunk pos = (σ, if c.M.isFailState σ.state then "FAIL" else "OK", pos) := by
   simp [RtCtx.feed, hchk, hempty]
 
+/-- **A FAIL reported by `end()` is final too**: for a machine passing the decidable check
+    `endFailOK` (evaluated on every exported machine), when `end()` answers FAIL it leaves the state
+    struct in a state from which every later `feed` and `end` call answers FAIL
+    (`C10_fail_absorbing`). -/
+theorem C10_end_fail_is_final (c : RtCtx) (hok : c.M.endFailOK c.semOpts = true) (σ : CState)
+    (h : (c.endCall σ).2 = "FAIL") : c.M.failLike (c.endCall σ).1.state := by
+  by_cases hs : σ.state < 0 ∨ σ.state.toNat ≥ c.M.states.size
+  · have hfl : c.M.failLike σ.state := by
+      rcases hs with hs | hs
+      · exact Or.inl hs
+      · exact Or.inr (Or.inl hs)
+    rw [(C10_fail_absorbing c σ hfl).2]
+    exact hfl
+  · have hs' : 0 ≤ σ.state ∧ σ.state.toNat < c.M.states.size := by omega
+    have hmem := run_mem_paths (c.oracle false σ) (c.M.call c.semOpts σ.state symEnd) []
+    simp only [Machine.endFailOK, List.all_eq_true, List.mem_range] at hok
+    have hcall := hok σ.state.toNat hs'.2
+    have hst : ((σ.state.toNat : Nat) : Int) = σ.state := Int.toNat_of_nonneg hs'.1
+    rw [hst] at hcall
+    have hleaf := hcall _ hmem
+    simp only [RtCtx.endCall] at h ⊢
+    rw [runTree_eq_run_nil] at h ⊢
+    simp only at h ⊢
+    generalize ((c.M.call c.semOpts σ.state symEnd).run (c.oracle false σ) []).2 = leaf at h hleaf ⊢
+    cases leaf with
+    | next s adv => simp at h
+    | yielded code st adv =>
+      simp only at h
+      exact absurd h (by
+        intro e
+        have : ("YIELD_" ++ code).length = 4 := by rw [e]; rfl
+        simp [String.length_append] at this
+        have h6 : "YIELD_".length = 6 := rfl
+        omega)
+    | ret code st adv =>
+      simp only at h hleaf ⊢
+      subst h
+      simp only [bne_self_eq_false, Bool.false_or, Bool.or_eq_true, decide_eq_true_eq, beq_iff_eq] at hleaf
+      rcases hleaf with (h1 | h2) | h3
+      · exact Or.inl h1
+      · exact Or.inr (Or.inl h2)
+      · exact Or.inr (Or.inr h3)
+
 /-- **Yield resumption is exact**: cutting the input anywhere and running the two parts one after
     the other gives the session of the whole — the re-invocations after yields included. -/
 theorem C10_yield_resume_exact (c : RtCtx) (fuel : Nat) (σ : CState) (c1 c2 : List Nat) (off : Nat) :
